@@ -2,14 +2,21 @@
 # C09 — executable model of llgo's x86-64 C ABI classification (`internal/cabi`)
 
 Mirrors, branch by branch, `/repo/internal/cabi/arch.go` `TypeInfoAmd64.GetTypeInfo` (+ `elementTypes`,
-`elementTypesCount`) and the empty-type rules of `/repo/internal/cabi/cabi.go` (`getEmptyType`,
-`transformFuncType`), *including their defects*:
+`elementTypesCount`, `elementOffsets`) and the empty-type rules of `/repo/internal/cabi/cabi.go`
+(`getEmptyType`, `transformFuncType`), *including their defects*:
 
-* the split index of a two-eightbyte aggregate is computed from a **running offset over the flattened
-  scalar list** (`offset = (offset + Sizeof(et) + align-1) &^ (align-1)`), which ignores the padding that a
-  nested struct or an array of structs introduces (`splitLoop`);
-* every parameter is classified **in isolation** (`lowerParam`): nothing tracks how many INTEGER / SSE
+* every parameter is classified **in isolation** (`lowerParamC`): nothing tracks how many INTEGER / SSE
   registers are still free (`implPlace`).
+
+Two configurations (`Cfg`):
+
+* `Cfg.repaired` — the code as it is NOW (after "fix: split two-eightbyte aggregates at the real element
+  offsets"): the split index of a two-eightbyte aggregate is the first scalar whose REAL offset
+  (`elementOffsets`) is ≥ 8 and the second half is `IntType((Size-8)*8)`  (`getTypeInfo`, `classifyV`, `classify`);
+* `Cfg.legacy` — the code before that fix: the split index came from a **running offset over the flattened
+  scalar list** (`offset = (offset + Sizeof(et) + align-1) &^ (align-1)`), which ignores the padding a nested
+  struct or an array of structs introduces (`splitLoop`, `getTypeInfoLegacy`, `classifyLegacyV`).  Kept so
+  that the counterexample stays checked and so that the check can tell which of the two a tree implements.
 
 The universe: C-compatible value types built from `{i8,i16,i32,i64,ptr,f32,f64}`, nested structs and
 arrays, laid out as LLVM's `DataLayout` does for the x86-64 triple (natural alignment, tail padding).
@@ -162,7 +169,7 @@ def RegTy.allocSize (r : RegTy) : Nat := alignUp r.bytes r.abiAlign
 /-- offset of the second member of the literal struct `{t1, t2}` through which llgo loads/stores the two halves -/
 def off2 (r1 r2 : RegTy) : Nat := alignUp r1.allocSize r2.abiAlign
 
-/-! ## `TypeInfoAmd64.GetTypeInfo` -/
+/-! ## `TypeInfoAmd64.GetTypeInfo` — shared pieces and the LEGACY split (before the fix) -/
 
 inductive PassKind where
   | void                       -- AttrVoid: zero-size parameter, dropped
@@ -186,7 +193,7 @@ def subFold : List Scalar → Nat → Nat
   | [], n => n
   | s :: r, n => subFold r (alignUp (n + s.size) s.size)
 
-/-- the closure `subType(subs, left)`; `structAlign` is `info.Align` -/
+/-- (legacy) the closure `subType(subs, left)`; `structAlign` is `info.Align` -/
 def subTypeLegacy (structAlign : Nat) (subs : List Scalar) (left : Bool) : RegTy :=
   match subs with
   | [s] => s.regTy
@@ -195,7 +202,7 @@ def subTypeLegacy (structAlign : Nat) (subs : List Scalar) (left : Bool) : RegTy
     else if left then .int 8
     else .int (alignUp (subFold subs 0) structAlign)
 
-/-- the general 8 < size ≤ 16 branch -/
+/-- (legacy) the general 8 < size ≤ 16 branch -/
 def splitClassifyLegacy (align : Nat) (types : List Scalar) : PassKind :=
   .coerce2 (subTypeLegacy align (types.take (splitLoop types 0 0)) true)
            (subTypeLegacy align (types.drop (splitLoop types 0 0)) false)
@@ -218,7 +225,7 @@ def getTypeInfoLegacy (size align : Nat) (types : List Scalar) : PassKind :=
       | _ => splitClassifyLegacy align types
   else .direct
 
-/-- `Transformer.GetTypeInfo` for amd64 (`SkipEmptyParams() = true`): zero-size types first, then the classifier -/
+/-- (legacy) `Transformer.GetTypeInfo` for amd64 -/
 def classifyLegacyV (v : View) (isRet : Bool) : PassKind :=
   if v.size = 0 then (if isRet then .direct else .void)
   else getTypeInfoLegacy v.size v.align v.types
@@ -233,15 +240,15 @@ def PassKind.wellFormed : PassKind → Bool
   | _ => true
 
 
-/-! ## The repaired classifier (proposed in fixes/C09-1.diff)
+/-! ## `TypeInfoAmd64.GetTypeInfo` as it is now (`Cfg.repaired`)
 
-Identical to `getTypeInfo` except that the two-eightbyte split is taken at the first scalar whose REAL offset
-is ≥ 8 and the second half is `IntType((Size-8)*8)`.  Kept next to the model of the current code so that the
-check can tell which of the two the working tree implements (the correspondence accepts exactly one of them
-for ALL inputs). -/
+The two-eightbyte split is taken at the first scalar whose REAL offset (`elementOffsets`) is ≥ 8 and the second
+half is `IntType((Size-8)*8)`. -/
 
+/-- `for i, offset := range elementOffsets(..) { if offset >= 8 { index = i; break } }` (`len(types)` if none) -/
 def splitIndex (elems : List Elem) : Nat := (elems.takeWhile fun e => e.1 < 8).length
 
+/-- the closure `subType(subs, left)`; `size` is `info.Size` -/
 def subType (size : Nat) (subs : List Scalar) (left : Bool) : RegTy :=
   match subs with
   | [s] => s.regTy
@@ -266,9 +273,31 @@ def getTypeInfo (v : View) : PassKind :=
       | _ => splitClassify v
   else .direct
 
+/-- `Transformer.GetTypeInfo` for amd64 (`SkipEmptyParams() = true`): zero-size types first, then the classifier -/
 def classifyV (v : View) (isRet : Bool) : PassKind :=
   if v.size = 0 then (if isRet then .direct else .void)
   else getTypeInfo v
+
+def classify (t : CType) (isRet : Bool) : PassKind := classifyV t.view isRet
+
+inductive Cfg where
+  | repaired | legacy
+deriving DecidableEq, Repr
+
+def classifyC : Cfg → View → Bool → PassKind
+  | .repaired => classifyV
+  | .legacy => classifyLegacyV
+
+mutual
+/-- C-compatible value types of the universe: no zero-length arrays -/
+def CType.wf : CType → Bool
+  | .sc _ => true
+  | .struct fs => wfL fs
+  | .array n t => decide (0 < n) && t.wf
+def wfL : List CType → Bool
+  | [] => true
+  | f :: fs => f.wf && wfL fs
+end
 
 /-! ## The rewritten signature (`transformFuncType`) and LLVM's x86-64 convention for it -/
 
@@ -291,8 +320,6 @@ def lowerParamC (cls : View → Bool → PassKind) (v : View) : List LArg :=
   | .coerce2 r1 r2 => [.scalar r1, .scalar r2]
   | .memory => [.byval v.size v.align]
 
-def lowerParamV (v : View) : List LArg := lowerParamC classifyLegacyV v
-
 inductive LRet where
   | void | sret | regs (rs : List RegTy)
 deriving DecidableEq, Repr
@@ -304,8 +331,6 @@ def lowerRetC (cls : View → Bool → PassKind) (v : View) : LRet :=
   | .coerce r => .regs [r]
   | .coerce2 r1 r2 => .regs [r1, r2]
   | .memory => .sret
-
-def lowerRetV (v : View) : LRet := lowerRetC classifyLegacyV v
 
 inductive Loc where
   | gpr (i : Nat)      -- parameters: i-th of RDI RSI RDX RCX R8 R9; results: i-th of RAX RDX
@@ -345,10 +370,6 @@ def implPlaceArgsC (cls : View → Bool → PassKind) : List View → St → Lis
   | [], _ => []
   | v :: vs, st => (ccArgs (lowerParamC cls v) st).1 :: implPlaceArgsC cls vs (ccArgs (lowerParamC cls v) st).2
 
-def implPlaceArgs : List View → St → List (List Loc)
-  | [], _ => []
-  | v :: vs, st => (ccArgs (lowerParamV v) st).1 :: implPlaceArgs vs (ccArgs (lowerParamV v) st).2
-
 inductive RetPlace where
   | void | sret | regs (l : List Loc)
 deriving DecidableEq, Repr
@@ -367,20 +388,14 @@ def implRetC (cls : View → Bool → PassKind) (r : Option View) : RetPlace :=
     | .sret => .sret
     | .regs rs => .regs (ccArgs (rs.map .scalar) ⟨0, 0, 0⟩).1
 
-def implRet (r : Option View) : RetPlace := implRetC classifyLegacyV r
-
-/-- where every eightbyte of every argument ends up on the current tree -/
-def implPlaceV (ret : Option View) (params : List View) : Placement :=
-  { ret := implRet ret,
-    args := implPlaceArgs params ⟨(if implRet ret = .sret then 1 else 0), 0, 0⟩ }
-
-def implPlace (sig : Sig) : Placement := implPlaceV (sig.ret.map CType.view) (sig.params.map CType.view)
-
-/-- the same pipeline for another classifier (used by the driver for the repaired variant) -/
+/-- where every eightbyte of every argument ends up, for a classifier `cls` -/
 def implPlaceC (cls : View → Bool → PassKind) (sig : Sig) : Placement :=
   { ret := implRetC cls (sig.ret.map CType.view),
     args := implPlaceArgsC cls (sig.params.map CType.view)
       ⟨(if implRetC cls (sig.ret.map CType.view) = .sret then 1 else 0), 0, 0⟩ }
+
+/-- where every eightbyte of every argument ends up on the current tree -/
+def implPlace (sig : Sig) : Placement := implPlaceC classifyV sig
 
 /-! ## C strings (`runtime/internal/runtime/z_string.go`: `CStrCopy`, `StringFromCStr`, `StringFrom`; `c.Strlen`) -/
 
